@@ -319,6 +319,11 @@ func VerifC19_Any() {
 	case 13:
 		desc, val = VerifMap(VerifBasic(BOOL), VerifBasic(I32)), map[interface{}]interface{}{true: iv}
 		want = vrt.PutBE32(append(vrt.PutMapHdr(nil, vrt.TBOOL, vrt.TI32, 1), 1), int(iv))
+	case 14:
+		// list<byte>: the reader's two byte representations (BU: byteAsUint8) - also the only shape where
+		// the byteAsUint8 / copyString arguments of ReadAnyWithDesc differ in effect
+		desc, val = VerifList(VerifBasic(BYTE)), []interface{}{byte(kv), byte(3)}
+		want = append(vrt.PutListHdr(nil, vrt.TBYTE, 2), byte(kv), 3)
 	case 11:
 		desc, val = VerifList(inner), []interface{}{map[FieldID]interface{}{1: iv}, map[FieldID]interface{}{}}
 		want = vrt.PutListHdr(nil, vrt.TSTRUCT, 2)
@@ -335,10 +340,25 @@ func VerifC19_Any() {
 	vrt.Assert(vrt.BytesEq(p.Buf, 0, len(p.Buf), want, 0, len(want)), "C19.any.write.equals-reference")
 	// read the reference encoding back and write the result again
 	r := BinaryProtocol{Buf: want}
-	back, err := r.ReadAnyWithDesc(desc, false, true, true, useName)
+	bu := vrt.Param("BU") != 0
+	back, err := r.ReadAnyWithDesc(desc, bu, !bu, true, useName)
 	vrt.Assert(err == nil && r.Read == len(want), "C19.any.read.consumes-all")
 	if err != nil {
 		return
+	}
+	if shape == 14 {
+		l, ok := back.([]interface{})
+		vrt.Assert(ok && len(l) == 2, "C19.any.read.bytes.shape")
+		if ok && len(l) == 2 {
+			if bu {
+				x, isU := l[0].(byte)
+				vrt.Assert(isU && x == byte(kv), "C19.any.read.bytes.as-uint8")
+			} else {
+				x, isI := l[0].(int8)
+				vrt.Assert(isI && x == kv, "C19.any.read.bytes.as-int8")
+				return // an int8 is not accepted back by the writer without casting
+			}
+		}
 	}
 	w := BinaryProtocol{Buf: make([]byte, 0, 8)}
 	err = w.WriteAnyWithDesc(desc, back, false, true, useName)
